@@ -45,6 +45,10 @@ type c17Case struct {
 	// listed (1-based, per run); -r means "at every request from the r-th on". The extra execution
 	// gets no ticket and must be skipped without any effect on the run in progress.
 	Refire []int `json:"refire,omitempty"`
+	// Runs > 1: the SAME job object is executed Runs times one after the other (what the next cron
+	// ticks do); the sink rejects every request during the first FailRuns executions and is healthy afterwards.
+	Runs     int `json:"runs,omitempty"`
+	FailRuns int `json:"failRuns,omitempty"`
 }
 
 func c17Subset(mask, k int) []int {
@@ -116,6 +120,27 @@ func c17EnumList(tier string, transform bool) []c17Case {
 						for _, rf := range [][]int{{2}, {3}, {-2}} {
 							c := c17Case{K: k, B: b, Fail: f, MaxItems: m, Refire: rf, Kind: "incremental", Trigger: "direct"}
 							out = append(out, c)
+						}
+					}
+				}
+			}
+		}
+	}
+	// failing-then-clean executions of one job object: sink down during the first execution(s), healthy afterwards;
+	// with and without a transform in the pipeline (the transform wrapper and the sink wrapper are re-used by later executions)
+	if !transform {
+		ks := []int{3, 5}
+		if kmax > 5 {
+			ks = append(ks, kmax)
+		}
+		for _, k := range ks {
+			for _, b := range []int{1, 2, k} {
+				for _, m := range []int{0, 1, 2} {
+					for _, fr := range []int{1, 2} {
+						for _, tr := range []bool{false, true} {
+							for _, kind := range []string{"incremental", "fullsync"} {
+								out = append(out, c17Case{K: k, B: b, Fail: []int{}, MaxItems: m, Kind: kind, Trigger: "direct", Transform: tr, Runs: fr + 2, FailRuns: fr})
+							}
 						}
 					}
 				}
@@ -625,12 +650,15 @@ func c17Enum(ctx *Ctx) error {
 		if len(c.Refire) > 0 {
 			tags = append(tags, "trigger-refired-while-running")
 		}
+		if c.Runs > 1 {
+			tags = append(tags, "failing-then-clean-executions")
+		}
 		if c.Sampled {
 			tags = append(tags, "sampled")
 		} else {
 			tags = append(tags, "enumerated")
 		}
-		ctx.Out.Case(id, ctx.Seed, c, len(c.Fail) > 0 && len(c.Fail) < c.K, tags)
+		ctx.Out.Case(id, ctx.Seed, c, (len(c.Fail) > 0 && len(c.Fail) < c.K) || (c.FailRuns > 0 && c.Runs > c.FailRuns), tags)
 		ctx.Out.Begin(id, pos, c)
 		st.runEnum(id, pos, c)
 		ctx.Out.Ack(id, pos, nil)
@@ -647,6 +675,9 @@ func (st *c17State) runEnum(caseID string, pos int, c c17Case) {
 			// input class: the same job object was triggered again while this run was in progress
 			class += "/trigger-refired-while-running"
 			rf = fmt.Sprintf(" refire@%v", c.Refire)
+		}
+		if c.Runs > 1 {
+			rf += fmt.Sprintf(" executions=%d sinkDownDuringFirst=%d", c.Runs, c.FailRuns)
 		}
 		out.Stat("viol:"+class, 1)
 		out.Viol(caseID, "C17", class, fmt.Sprintf("k=%d b=%d fail=%v budget=%d maxItems=%d %s/%s transform=%v%s: %s", c.K, c.B, c.Fail, c.Budget, c.MaxItems, c.Kind, c.Trigger, c.Transform, rf, msg),
@@ -719,7 +750,18 @@ func (st *c17State) runEnum(caseID string, pos int, c c17Case) {
 				}
 			}
 		}
-		panicked, pmsg, _ = c10RunGuarded(js[0].RunAsCron)
+		sc.FailRuns = c.FailRuns
+		nruns := c.Runs
+		if nruns < 1 {
+			nruns = 1
+		}
+		for x := 0; x < nruns && !panicked; x++ {
+			// every execution uses the same job object, like consecutive cron ticks
+			panicked, pmsg, _ = c10RunGuarded(js[0].RunAsCron)
+			if x > 0 {
+				out.Stat("later_executions_of_job_object", 1)
+			}
+		}
 		_ = st.h.Sched.DeleteJob(jobID)
 		out.Stat("runs_as_cron_direct", 1)
 		if len(c.Refire) > 0 {
@@ -771,6 +813,27 @@ func (st *c17State) runEnum(caseID string, pos int, c c17Case) {
 		})
 		if stopped {
 			out.Stat("runs_stopped_at_maxitems", 1)
+		}
+		// a clean execution (the sink was offered something and rejected nothing, nothing was reported)
+		// must be recorded without error. Executions that offered nothing are not judged (the statement
+		// does not say what an empty run after a failed one records).
+		if o.Requests > 0 && o.Rejected == 0 && o.NRep == 0 {
+			out.Stat("clean_executions", 1)
+			if ri > 0 {
+				out.Stat("clean_executions_after_failed_one", 1)
+			}
+			bad := o.End == "failed" || o.End == "failed-late"
+			lastErr := ""
+			if !bad && ri == len(runs)-1 && c.Trigger != "cron" {
+				if res, _ := st.h.JobResult(jobID); res != nil && res.LastError != "" {
+					bad, lastErr = true, res.LastError
+				}
+			}
+			if bad {
+				viol(c17CleanClass(ri, c.Transform), fmt.Sprintf("run %d: the sink accepted all %d requests and nothing was reported, but the execution was recorded as failed (%s %s)", ri+1, o.Requests, o.End, lastErr), "no error", o.End+" "+lastErr, run)
+			} else {
+				out.Stat("clean_executions_recorded_without_error", 1)
+			}
 		}
 		if ri == 0 {
 			// the recorded outcome of the (first) run carries the error
@@ -845,4 +908,16 @@ func c17HasValue(f map[string]any, v string) bool {
 		}
 	}
 	return false
+}
+
+// c17CleanClass names the input class of a clean execution that was recorded as failed.
+func c17CleanClass(ri int, transform bool) string {
+	cl := "clean-run-recorded-failed"
+	if ri > 0 {
+		cl += "/later-execution-of-job-object"
+	}
+	if transform {
+		cl += "+transform"
+	}
+	return cl
 }
